@@ -344,6 +344,45 @@ func c10Deviations(exprLen int) []c10Dev {
 			}
 		})
 	}
+	// values that cannot be written in a token but arise during evaluation: the empty set (an
+	// intersection of disjoint sets) and what the other operators do with it
+	iv := func(n int64) wire.Op { return wire.Op{Kind: wire.OValue, Term: wire.Term{Kind: wire.TInteger, I: n}} }
+	setOf := func(ns ...int64) wire.Op {
+		t := wire.Term{Kind: wire.TSet}
+		for _, n := range ns {
+			t.Set = append(t.Set, wire.Term{Kind: wire.TInteger, I: n})
+		}
+		return wire.Op{Kind: wire.OValue, Term: t}
+	}
+	bin := func(code uint64) wire.Op { return wire.Op{Kind: wire.OBinary, HasCode: true, Code: code} }
+	un := func(code uint64) wire.Op { return wire.Op{Kind: wire.OUnary, HasCode: true, Code: code} }
+	empty := []wire.Op{setOf(1, 2), setOf(3), bin(15)} // [1,2].intersection([3])
+	for k, tail := range [][]wire.Op{
+		{iv(1), bin(5)},                        // .contains(1)
+		{setOf(1), bin(5)},                     // .contains([1])
+		{un(2), iv(0), bin(4)},                 // .length() == 0
+		{setOf(1), bin(16), un(2)},             // .union([1]).length()
+		{setOf(1), bin(15)},                    // .intersection([1])
+		{setOf(3), setOf(4), bin(15), bin(4)},  // == another computed empty set
+		{setOf(3), setOf(4), bin(15), bin(5)},  // .contains(computed empty set)
+		{setOf(3), setOf(4), bin(15), bin(16)}, // .union(computed empty set)
+		{un(1)}, {un(0)}, {iv(1), bin(0)}, {iv(1), bin(9)},
+	} {
+		seq := append(append([]wire.Op{}, empty...), tail...)
+		k := k
+		add(fmt.Sprintf("expression over a computed empty set #%d %s", k, opsName(seq)), func(t *c10Tok) {
+			if k%2 == 0 {
+				t.blocks[0].Rules[0].Exprs = [][]wire.Op{seq}
+			} else {
+				t.blocks[0].Checks[0].Queries[0].Exprs = [][]wire.Op{seq}
+			}
+		})
+		// and with the empty set as the right operand
+		rev := append(append([]wire.Op{setOf(1, 2)}, empty...), bin(5))
+		if k == 0 {
+			add("expression: set.contains(computed empty set)", func(t *c10Tok) { t.blocks[0].Checks[0].Queries[0].Exprs = [][]wire.Op{rev} })
+		}
+	}
 	add("1001 pushes in an expression", func(t *c10Tok) {
 		var ops []wire.Op
 		for i := 0; i < 1001; i++ {
@@ -541,7 +580,7 @@ func init() {
 			devs := c10Deviations(sup.Pick(c, 2, 3))
 			var plain []int // deviations that take part in pairs: everything but the operator sequences
 			for i, d := range devs {
-				if !strings.HasPrefix(d.name, "expression ops ") {
+				if !strings.HasPrefix(d.name, "expression ops ") && !strings.HasPrefix(d.name, "expression over a computed") {
 					plain = append(plain, i)
 				}
 			}
